@@ -56,7 +56,7 @@ def _refs(r, sh, nested):
     elif k == 'list':
         for x in r['of']:
             _refs(x, sh, nested)
-    elif k == 'opres':
+    elif k in ('opres', 'prev'):
         nested.append(r['op'])
 
 
